@@ -1028,7 +1028,7 @@ EFFECT_PRIMS = [
     ("SPAWN", lambda c: c.name in ("tokio::spawn", "tokio::task::spawn")),
     ("LOCK", lambda c: c.name in ("tokio::sync::Mutex::lock", "std::sync::Mutex::lock", "tokio::sync::Mutex::try_lock", "std::sync::Mutex::try_lock", "tokio::sync::Mutex::blocking_lock",
                                   "tokio::sync::Mutex::lock_owned", "tokio::sync::Mutex::try_lock_owned", "tokio::sync::RwLock::read", "tokio::sync::RwLock::write", "tokio::sync::RwLock::try_read",
-                                  "tokio::sync::RwLock::try_write", "std::sync::RwLock::read", "std::sync::RwLock::write", "tokio::sync::Semaphore::acquire", "tokio::sync::Semaphore::try_acquire")),
+                                  "tokio::sync::RwLock::try_write", "std::sync::RwLock::read", "std::sync::RwLock::write", "tokio::sync::Semaphore::acquire", "tokio::sync::Semaphore::try_acquire", "tokio::sync::Semaphore::acquire_owned", "tokio::sync::Semaphore::acquire_many", "tokio::sync::Semaphore::try_acquire_owned")),
     ("CHAN", lambda c: c.name in ("tokio::sync::mpsc::Sender::send", "tokio::sync::mpsc::Receiver::recv")),
     ("SLEEP", lambda c: c.name == "tokio::time::sleep"),
     ("OUT", lambda c: c.name == "futures::SinkExt::send"),
